@@ -39,6 +39,47 @@ def phi_by_keys(P, xP, Q, rename_P=None, rename_Q=None, default=None):
     return terms, missing
 
 
+def phi_contract_forms(P, xP, Q, numeric=False):
+    """like phi_by_keys, but a contract may use its one-variable form ('disp') in one problem and its two-variable form
+    ('disp_in' = the negative part, 'disp_out' = the positive part) in the other (chosen by the sign pattern of its capacities over
+    the horizon of the problem): disp = disp_in + disp_out, disp_in = min(disp, 0), disp_out = max(disp, 0).
+    numeric: xP are floats, terms are floats."""
+    kp = keymap(P)
+    neg = (lambda v: min(v, 0.0)) if numeric else (lambda v: z3.If(v < 0, v, z3.RealVal(0)))
+    pos = (lambda v: max(v, 0.0)) if numeric else (lambda v: z3.If(v > 0, v, z3.RealVal(0)))
+    terms, missing = [], []
+    qk = Q.var_keys()
+    for i in range(Q.n):
+        k = qk.get(i)
+        if k is not None and k in kp:
+            terms.append(xP[kp[k]])
+            continue
+        t_ = None
+        if k is not None:
+            asset, vn, st, node = k
+            if vn in ('disp_in', 'disp_out') and (asset, 'disp', st, node) in kp:
+                v = xP[kp[(asset, 'disp', st, node)]]
+                t_ = neg(v) if vn == 'disp_in' else pos(v)
+            elif vn == 'disp' and (asset, 'disp_in', st, node) in kp and (asset, 'disp_out', st, node) in kp:
+                t_ = xP[kp[(asset, 'disp_in', st, node)]] + xP[kp[(asset, 'disp_out', st, node)]]
+        terms.append(t_)
+        if t_ is None:
+            missing.append(i)
+    return terms, missing
+
+
+def replay_forms(opP, opQ, env, prefix, const=None):
+    """numeric re-evaluation of phi_contract_forms at the witness on the unshimmed problems"""
+    from . import obs as _obs, scen
+    P, Q = lpsem.LP(opP), lpsem.LP(opQ)
+    x0 = [float(env.get('%s%d' % (prefix, i), 0.0)) for i in range(P.n)]
+    y, missing = phi_contract_forms(P, x0, Q, numeric=True)
+    y = [0.0 if v is None else float(v) for v in y]
+    oP, oQ = _obs.to_jsonable(_obs.problem_obs(opP)), _obs.to_jsonable(_obs.problem_obs(opQ))
+    return dict(res_P=scen.feasibility_residual(oP, x0), res_Q=scen.feasibility_residual(oQ, y),
+                val_P=-sum(c * v for c, v in zip(oP['c'], x0)) + (const or 0.0), val_Q=-sum(c * v for c, v in zip(oQ['c'], y)))
+
+
 def goals_for(Q, xt, val_rel=None, extra=None, tag=''):
     goals = []
     for i in range(Q.n):
